@@ -34,6 +34,7 @@ class Cfg:
         self.labels_top_level_only = False   # label definitions only between the top-level statements of a routine
         self.forward_jumps_only = False      # jumps/calls go to later top-level labels of the routine or to other routines
         self.small_alphabet = False
+        self.ctx_ctrl = False                # jumps, calls and control statements as the statement of a with-block
         for k, v in kw.items():
             setattr(self, k, v)
 
@@ -42,6 +43,8 @@ class Gen:
     def __init__(self, rng: random.Random, cfg: Cfg | None = None):
         self.r = rng
         self.c = cfg or Cfg()
+        # (a generator of its own, not drawn from rng: programs without ctx_ctrl are the same as before)
+        self._wr = random.Random(str(rng.getstate()[1][:8])) if (cfg is not None and cfg.ctx_ctrl) else None
         self.all_labels: list[str] = []
         self.pending: list[str] = []  # labels of the current routine not yet defined
         self.stats: dict[str, int] = {}
@@ -184,21 +187,27 @@ class Gen:
             y = self.r.random()
             if y < 0.72:
                 return pre + [self.plain()]
+            def wrap(st: list) -> list:
+                # (only with ctx_ctrl, and decided by a generator of its own: the programs of the other checks stay as they are)
+                if self.c.ctx_ctrl and self.c.ctx and self._wr.random() < 0.2:
+                    self.count("with-ctrl")
+                    return [A("with"), self._wr.choice(["actor", "object", "performer"]), [A("i"), self._wr.randrange(0, 9)], st]
+                return st
             if y < 0.80:
                 self.count("terminator")
-                return pre + [[A("ctrl"), A(self.r.choice(["return", "end", "hold"]))]]
+                return pre + [wrap([A("ctrl"), A(self.r.choice(["return", "end", "hold"]))])]
             if y < 0.88 and self.c.labels and self.all_labels:
                 self.count("jump")
-                return pre + [[A("jump"), self.r.choice(self.all_labels)]]
+                return pre + [wrap([A("jump"), self.r.choice(self.all_labels)])]
             if y < 0.91 and self.c.labels and self.all_labels:
                 self.count("call")
-                return pre + [[A("call"), self.r.choice(self.all_labels)]]
+                return pre + [wrap([A("call"), self.r.choice(self.all_labels)])]
             if y < 0.95 and in_case:
                 self.count("break")
-                return pre + [[A("ctrl"), A("break")]]
+                return pre + [wrap([A("ctrl"), A("break")])]
             if in_loop:
                 self.count("loopctl")
-                return pre + [[A("ctrl"), A(self.r.choice(["continue", "break_loop"]))]]
+                return pre + [wrap([A("ctrl"), A(self.r.choice(["continue", "break_loop"]))])]
             return pre + [self.plain()]
         if x < 0.72 and self.c.ifs:
             self.count("if")
